@@ -43,8 +43,9 @@ MANIFEST = {
             "also still receive round(N*cf) from Python (the new num_low_exact / acs_hist lines do not). The seed -> pair-index table "
             "of the history correspondence is RandomState(seed).randint(0, k) evaluated by numpy (MT19937 is not modelled; theorems "
             "quantify over every stream). For CIRCUS without centre fraction the ACS is disc ∩ mask by design; only the subset claim "
-            "and 'sampled part of a disc' (oracle) are made there. Aliased writes (`m = self.memo; m[k] = v`) are invisible to the "
-            "state-write table; the history oracle covers them dynamically. numpy-integer seeds are rejected (ValueError) by the three "
+            "and 'sampled part of a disc' (oracle) are made there. The state-write table follows simple local aliases (`m = self.memo`, "
+            "`m = vars(self).setdefault(…)`) but not state reached through arguments, containers or C extensions; the history "
+            "oracle covers those dynamically. numpy-integer seeds are rejected (ValueError) by the three "
             "generators that call integerize_seed (Gaussian1D/2D, VariableDensityPoisson): reported in the histogram, not judged.",
     "technique": "Lean 4 proof (omega, nlinarith, interval counting, list induction, state-machine induction) + AST translation bridge "
                  "(kernels + structural tables) + differential correspondence incl. call histories",
